@@ -86,6 +86,9 @@ class ViState:
         "Set `InputMode`."
         if value == InputMode.NAVIGATION:
             self.waiting_for_digraph = False
+            # (Also forget a half-entered digraph, otherwise the next
+            # `c-k` would take its first key as the second symbol.)
+            self.digraph_symbol1 = None
             self.operator_func = None
             self.operator_arg = None
 
@@ -99,6 +102,7 @@ class ViState:
         self.input_mode = InputMode.INSERT
 
         self.waiting_for_digraph = False
+        self.digraph_symbol1 = None
         self.operator_func = None
         self.operator_arg = None
 
